@@ -16,6 +16,7 @@ import (
 	"math"
 	"sort"
 	"strings"
+	"time"
 
 	"github.com/tdewolff/canvas"
 	"github.com/tdewolff/canvas/renderers/pdf"
@@ -121,7 +122,7 @@ func (g *gen) view() (canvas.Matrix, string) {
 	return t.Rotate(c.Range(0, 360)).Scale(c.Range(0.3, 3), c.Range(0.3, 3)), "general"
 }
 
-var dashPool = [][]float64{{3, 3}, {1, 2}, {2}, {3, 1, 1}, {2, 1, 1, 1}, {0.5, 1.5}}
+var dashPool = [][]float64{{3, 3}, {1, 2}, {2}, {3, 1, 1}, {2, 1, 1, 1}, {0.5, 1.5}, {1, 2, 3}, {4}}
 
 // program draws 1–12 styled paths through a real Context and returns the recorded calls.
 func (g *gen) program() []call {
@@ -143,6 +144,9 @@ func (g *gen) program() []call {
 		if i == 0 || !sticky || c.Chance(0.5) {
 			if c.Chance(0.25) {
 				ctx.SetStroke(canvas.Paint{})
+			} else if c.Chance(0.2) {
+				ctx.SetStroke(ctx.Style.Fill) // same paint for fill and stroke: the second set* is a cache hit
+				c.Count("stroke-paint=fill-paint")
 			} else {
 				ctx.SetStroke(g.paint())
 			}
@@ -158,7 +162,7 @@ func (g *gen) program() []call {
 		}
 		if i == 0 || !sticky || c.Chance(0.3) {
 			if c.Chance(0.5) {
-				ctx.SetDashes(0)
+				ctx.SetDashes([]float64{0, 0, 0, -1, 2}[c.Intn(5)]) // an offset without a pattern
 			} else {
 				d := dashPool[c.Intn(len(dashPool))]
 				ctx.SetDashes([]float64{0, 0, 1, 2.5, -1, -7}[c.Intn(6)], append([]float64{}, d...)...)
@@ -185,12 +189,10 @@ func (g *gen) program() []call {
 		}
 		ctx.DrawPath(c.GenCoord(), c.GenCoord(), p)
 	}
-	// PDF's SetDashes loops forever on a negative phase with an empty array (probed separately)
 	var out []call
 	for _, cl := range rec.calls {
 		if cl.style.DashOffset < 0 && len(cl.style.Dashes) == 0 && cl.style.HasStroke() {
-			c.Count("skip:negative-offset-without-dashes")
-			cl.style.DashOffset = 0
+			c.Count("negative-offset-without-dashes")
 		}
 		if cl.path.Empty() {
 			c.Count("skip:empty-path")
@@ -203,7 +205,6 @@ func (g *gen) program() []call {
 			if msg := hc.Try(func() {
 				p := cl.path
 				if st.IsDashed() {
-					p.Dash(st.DashOffset, st.Dashes...).Stroke(st.StrokeWidth, st.StrokeCapper, st.StrokeJoiner, canvas.Tolerance)
 					o, d := canvas.ScaleDash(st.StrokeWidth, st.DashOffset, st.Dashes)
 					p = p.Dash(o, d...)
 				}
@@ -218,14 +219,50 @@ func (g *gen) program() []call {
 	return out
 }
 
-func newGradients() []canvas.Gradient {
+// newGradients: two fixed two-stop gradients and four generated ones with 2-5 stops whose first/last
+// offsets are 0/1 or strictly inside (PDF then needs a stitching function with constant end pieces).
+func newGradients(c *hc.Ctx) []canvas.Gradient {
 	g1 := canvas.NewLinearGradient(canvas.Point{X: 0, Y: 0}, canvas.Point{X: 50, Y: 0})
 	g1.Add(0, canvas.Red)
 	g1.Add(1, canvas.Blue)
 	g2 := canvas.NewRadialGradient(canvas.Point{X: 20, Y: 20}, 0, canvas.Point{X: 20, Y: 20}, 30)
 	g2.Add(0, canvas.White)
 	g2.Add(1, canvas.Black)
-	return []canvas.Gradient{g1, g2}
+	out := []canvas.Gradient{g1, g2}
+	cols := []color.RGBA{canvas.Red, canvas.Green, canvas.Blue, canvas.Black, canvas.White, canvas.Yellow, {10, 200, 30, 255}}
+	for k := 0; k < 4; k++ {
+		n := 2 + c.Intn(4)
+		offs := make([]float64, n)
+		lo, hi := 0.0, 1.0
+		if c.Chance(0.5) {
+			lo = float64(1+c.Intn(3)) / 10
+		}
+		if c.Chance(0.5) {
+			hi = 1 - float64(1+c.Intn(3))/10
+		}
+		for i := range offs {
+			offs[i] = lo + (hi-lo)*float64(i)/float64(n-1)
+		}
+		add := func(f func(float64, color.RGBA)) {
+			for i, o := range offs {
+				f(o, cols[(k*3+i*2)%len(cols)])
+			}
+		}
+		if k%2 == 0 {
+			g := canvas.NewLinearGradient(canvas.Point{X: float64(c.Intn(20)), Y: float64(c.Intn(20))}, canvas.Point{X: float64(30 + c.Intn(40)), Y: float64(c.Intn(40))})
+			add(func(o float64, col color.RGBA) { g.Add(o, col) })
+			out = append(out, g)
+		} else {
+			g := canvas.NewRadialGradient(canvas.Point{X: 30, Y: 30}, float64(c.Intn(5)), canvas.Point{X: float64(30 + c.Intn(10)), Y: 30}, float64(20+c.Intn(30)))
+			add(func(o float64, col color.RGBA) { g.Add(o, col) })
+			out = append(out, g)
+		}
+		c.Count(fmt.Sprintf("gradient-stops:%d", n))
+		if lo != 0 || hi != 1 {
+			c.Count("gradient-offsets-inside-0-1")
+		}
+	}
+	return out
 }
 
 // ---- protocol encoding -------------------------------------------------------------------------
@@ -442,6 +479,17 @@ func replaySVG(calls []call) *replay {
 	return rp
 }
 
+func timed(f func() *replay) *replay {
+	ch := make(chan *replay, 1)
+	go func() { ch <- f() }()
+	select {
+	case r := <-ch:
+		return r
+	case <-time.After(10 * time.Second):
+		return nil
+	}
+}
+
 func joinSegs(rp *replay, tokenise func([]byte) ([]string, error)) string {
 	parts := make([]string, len(rp.segs))
 	for i, s := range rp.segs {
@@ -474,7 +522,7 @@ func describe(calls []call, grads []canvas.Gradient) []map[string]any {
 }
 
 func run(c *hc.Ctx) {
-	g := &gen{c: c, grads: newGradients()}
+	g := &gen{c: c, grads: newGradients(c)}
 	nprog := c.N
 	for it := 0; it < nprog; it++ {
 		calls := g.program()
@@ -483,11 +531,22 @@ func run(c *hc.Ctx) {
 			continue
 		}
 		c.Count(fmt.Sprintf("draws:%02d", len(calls)))
-		rp := replayPDF(calls)
+		// a back-end that does not return is a failure with this program as input; the run ends there (the
+		// spinning goroutine cannot be stopped, the process exits after the report is written)
+		rp, rs, rv := timed(func() *replay { return replayPDF(calls) }), timed(func() *replay { return replayPS(calls) }), timed(func() *replay { return replaySVG(calls) })
+		hung := false
+		for i, r := range []*replay{rp, rs, rv} {
+			if r == nil {
+				name := []string{"pdf", "ps", "svg"}[i]
+				c.Fail(name+":hang:RenderPath-does-not-return", name+" back-end did not return within 10 s on this program", map[string]any{"program": describe(calls, g.grads)})
+				hung = true
+			}
+		}
+		if hung {
+			return
+		}
 		c.Case(progLine("PDF", calls, g.grads, pdf.VerifC12Dec), "=", joinSegs(rp, tokenisePDF))
-		rs := replayPS(calls)
 		c.Case(progLine("PS", calls, g.grads, ps.VerifC12Dec), "=", joinSegs(rs, tokenisePS))
-		rv := replaySVG(calls)
 		c.Case(progLine("SVG", calls, g.grads, svg.VerifC12Dec), "=", joinSegs(rv, tokeniseSVG))
 		if it < 2 {
 			c.Sample("PDF: " + string(rp.all))
